@@ -29,7 +29,10 @@ import (
 //	a upsert <hex comment> <id> [<kind>:<bits>]            the client's upsert of a fresh certificate
 //	                                        kind:bits = rsa:3072, ecdsa:256|384|521, ed25519:256 (default);
 //	                                        certificates of one key type share a key and differ by serial
-//	a list                                  -> list {<hex comment>:<id>:c|p} sorted
+//	a addforeign <hex comment> <id> front|back   an identity of a key algorithm golang.org/x/crypto/ssh does not
+//	                                        know (PKIX-SSH x509v3-sign-rsa, ssh-xmss@openssh.com, a vendor type — what
+//	                                        other agents / smart-card middleware list), listed before / after the rest
+//	a list                                  -> list {<hex comment>:<id>:c|p|f} sorted
 func TestVerifC19(t *testing.T) {
 	io := vfOpen(t)
 	defer io.close()
@@ -40,6 +43,7 @@ func TestVerifC19(t *testing.T) {
 		t.Fatal(err)
 	}
 	keyring := agent.NewKeyring()
+	served := &vfForeignAgent{Agent: keyring}
 	blobID := map[string]string{}
 	// private keys: one per key type for certificates (the blob of a certificate differs by its
 	// serial), fresh ones for plain keys (RSA plain keys come from a small pool of 2048-bit keys)
@@ -118,7 +122,7 @@ func TestVerifC19(t *testing.T) {
 		return k
 	}
 	list := func() string {
-		keys, err := keyring.List()
+		keys, err := served.List()
 		if err != nil {
 			return "list-error"
 		}
@@ -127,6 +131,9 @@ func TestVerifC19(t *testing.T) {
 			kind := "p"
 			if strings.Contains(k.Format, "-cert-") {
 				kind = "c"
+			}
+			if served.isForeign(k.Blob) {
+				kind = "f"
 			}
 			id, ok := blobID[string(k.Blob)]
 			if !ok {
@@ -147,6 +154,7 @@ func TestVerifC19(t *testing.T) {
 		switch {
 		case f[0] == "reset" && len(f) == 1:
 			keyring = agent.NewKeyring()
+			served = &vfForeignAgent{Agent: keyring}
 			blobID = map[string]string{}
 			rsaNext = 0
 			io.emit("reset")
@@ -176,12 +184,35 @@ func TestVerifC19(t *testing.T) {
 				continue
 			}
 			client, server := net.Pipe()
-			go agent.ServeAgent(keyring, server)
+			go agent.ServeAgent(served, server)
 			err := withAddedKeyUpsertCertIntoAgentConnection(mk(f[2], true, comment, kt), client, logger)
 			client.Close()
 			if err != nil {
 				io.emit("error %s", vfHex(err.Error()))
 				continue
+			}
+			io.emit("%s", list())
+		case f[0] == "addforeign" && len(f) == 4 && (f[3] == "front" || f[3] == "back"):
+			comment, ok := vfUnhex(f[1])
+			if !ok {
+				io.emit("bad-op")
+				continue
+			}
+			formats := []string{"x509v3-sign-rsa", "ssh-xmss@openssh.com", "acme-smartcard-v1@example.com"}
+			n, _ := strconv.Atoi(f[2])
+			format := formats[n%len(formats)]
+			junk := make([]byte, 40)
+			rand.Read(junk)
+			blob := ssh.Marshal(struct {
+				Format string
+				Rest   []byte
+			}{format, append(junk, []byte(f[2])...)})
+			k := &agent.Key{Format: format, Blob: blob, Comment: comment}
+			blobID[string(blob)] = f[2]
+			if f[3] == "front" {
+				served.front = append(served.front, k)
+			} else {
+				served.back = append(served.back, k)
 			}
 			io.emit("%s", list())
 		case f[0] == "list" && len(f) == 1:
@@ -190,4 +221,51 @@ func TestVerifC19(t *testing.T) {
 			io.emit("bad-op")
 		}
 	}
+}
+
+// vfForeignAgent is the in-memory keyring plus identities it could never hold itself: keys of
+// algorithms unknown to golang.org/x/crypto/ssh, as a real ssh-agent (or gpg-agent, smart-card
+// middleware) may list them. They come before (`front`) or after (`back`) the keyring's own.
+type vfForeignAgent struct {
+	agent.Agent
+	front, back []*agent.Key
+}
+
+func (a *vfForeignAgent) List() ([]*agent.Key, error) {
+	keys, err := a.Agent.List()
+	if err != nil {
+		return nil, err
+	}
+	out := append([]*agent.Key(nil), a.front...)
+	out = append(out, keys...)
+	return append(out, a.back...), nil
+}
+
+func (a *vfForeignAgent) isForeign(blob []byte) bool {
+	for _, k := range append(append([]*agent.Key(nil), a.front...), a.back...) {
+		if string(k.Blob) == string(blob) {
+			return true
+		}
+	}
+	return false
+}
+
+func (a *vfForeignAgent) Remove(key ssh.PublicKey) error {
+	want := string(key.Marshal())
+	drop := func(l []*agent.Key) ([]*agent.Key, bool) {
+		for i, k := range l {
+			if string(k.Blob) == want {
+				return append(append([]*agent.Key(nil), l[:i]...), l[i+1:]...), true
+			}
+		}
+		return l, false
+	}
+	var ok bool
+	if a.front, ok = drop(a.front); ok {
+		return nil
+	}
+	if a.back, ok = drop(a.back); ok {
+		return nil
+	}
+	return a.Agent.Remove(key)
 }
